@@ -316,6 +316,11 @@ inline model::MVal any_val(Rng& r) {
         case 4:
             v.kind = 3;
             v.s = r.chance(0.03) ? text(r, 126, 130, true) : text(r, 1, 20, true);  // a-string
+            if (r.chance(0.06)) {
+                // one byte just outside the printable range among printable ones (0x7F, 0x1F, 0x80): a b-string
+                static const char edge[] = {'\x7f', '\x1f', (char)0x80};
+                v.s[r.below(v.s.size())] = edge[r.below(3)];
+            }
             break;
         case 5: {
             v.kind = 3;  // b-string
@@ -438,6 +443,26 @@ inline model::MRep repetition(Ctx& c, bool for_ref) {
             bool neg = c.cfg.neg_explicit && r.chance(0.3);
             bool off = c.cfg.mode == canon::OAS && c.offgrid && r.chance(0.5);
             for (int i = 0; i < n; i++) rep.coords.push_back(ongrid(c, neg ? -300 : 1, 300) + (off ? frac(c) : 0));
+            if (!c.cfg.compact && r.chance(0.04)) {
+                // long lists in the orders that are hard on a sorting routine (the writer sorts the coordinates and
+                // stores differences): ascending with the smallest value last, the largest first, descending
+                static const int lens[] = {17, 60, 118, 120, 127, 128, 200, 344, 350, 430, 600};
+                int m = lens[r.below(11)];
+                std::vector<dg_t> v;
+                dg_t x = ongrid(c, 1, 20);
+                for (int i = 0; i < m; i++) {
+                    v.push_back(x);
+                    x += ongrid(c, 1, 9);
+                }
+                switch (r.below(4)) {
+                    case 0: std::rotate(v.begin(), v.begin() + 1, v.end()); break;            // smallest last
+                    case 1: std::rotate(v.begin(), v.end() - 1, v.end()); break;              // largest first
+                    case 2: std::reverse(v.begin(), v.end()); break;                          // descending
+                    default:
+                        for (size_t i = v.size(); i > 1; i--) std::swap(v[i - 1], v[r.below(i)]);
+                }
+                rep.coords = v;
+            }
         }
     }
     return rep;
